@@ -37,7 +37,8 @@ type storeHistory struct {
 	DefTol float64
 }
 
-var storeIDPool = []string{"A", "B", "a:b", "SFW-MAL-1", "ü/1", "B2"}
+// "A\u200b" (zero-width space), "A " and "B\x01": IDs that differ from a neighbour only in a character that does not show
+var storeIDPool = []string{"A", "B", "a:b", "SFW-MAL-1", "ü/1", "B2", "A\u200b", "A ", "B\x01"}
 
 // 3.00001 / 3.00002 / 3.00004: different scores that share the four-decimal bucket of the entropy index key
 var storeEntPool = []float64{0, 1.0 / 64, 0.5, 3, 3 + 1.0/64, 3.03125, 8, 3.00001, 3.00002, 3.00004}
